@@ -399,6 +399,7 @@ func (w *World) checkNumericBuiltins(P string, f *Facts, r *Roles) {
 		// accumulator: a float phi updated by ADD of a Number() call inside a loop
 		okAcc := false
 		accDetail := "no float64 accumulator `acc = acc + x.Number()` found"
+		accFns := map[*ssa.Function]bool{}
 		var sumFns []*ssa.Function
 		for g := range staticReach(fn, func(x *ssa.Function) bool { return fnPkgKey(x) == "exec" }) {
 			if fnPkgKey(g) == "exec" {
@@ -439,6 +440,7 @@ func (w *World) checkNumericBuiltins(P string, f *Facts, r *Roles) {
 				}
 				if w.isNumberOfNode(stripConvAll(other), 0) {
 					okAcc = true
+					accFns[g] = true
 					accDetail = "float64 accumulator adds the number of each node (Number() of it, the spelled-out number(string-value(node)), or a helper of the package that returns exactly that)"
 				} else {
 					accDetail = "the added term is not Number() of a node"
@@ -446,6 +448,31 @@ func (w *World) checkNumericBuiltins(P string, f *Facts, r *Roles) {
 			})
 		}
 		w.check(P, "R06.4", "builtin sum", fn.Pos(), okAssert && okAcc, fmt.Sprintf("argument asserted to NodeSet: %v; %s", okAssert, accDetail))
+		// every node is added: the loops of sum leave only at their bound (an early exit "once the total is NaN or
+		// infinite" is wrong: Infinity plus a later NaN or -Infinity is NaN)
+		early := ""
+		for _, g := range sumFns {
+			if !accFns[g] {
+				continue
+			}
+			loops := loopBlocks(g)
+			for _, b := range g.Blocks {
+				if !loops[b] || len(b.Instrs) == 0 {
+					continue
+				}
+				if ifi, ok := b.Instrs[len(b.Instrs)-1].(*ssa.If); ok {
+					if bo, ok := ifi.Cond.(*ssa.BinOp); ok && bo.Op == token.LSS && isLenOf(bo.Y, nil) {
+						continue // the loop's own bound
+					}
+				}
+				for _, sc := range b.Succs {
+					if !loops[sc] {
+						early = w.pos(b.Instrs[len(b.Instrs)-1].Pos())
+					}
+				}
+			}
+		}
+		w.check(P, "R06.4", "builtin sum: every node is added", fn.Pos(), early == "", "exit from the summing loop other than its bound: "+orNone(early))
 	}
 	// round
 	if fn := single("round"); fn != nil {
